@@ -6,6 +6,7 @@ import (
 	corev1 "k8s.io/api/core/v1"
 	netv1 "k8s.io/api/networking/v1"
 	metav1 "k8s.io/apimachinery/pkg/apis/meta/v1"
+	apisv1a "sigs.k8s.io/network-policy-api/apis/v1alpha1"
 )
 
 // zzPrio: a symbolic priority in 0..1000
@@ -100,4 +101,49 @@ func ZZ_C02_RuleOrder() {
 	pe, err := NewPolicyEngineWithObjects(g.Objs)
 	vf_Assert(err == nil, "engine-built")
 	zzCheckAllPairs(g, pe, "list-matches-admin-rule-order")
+}
+
+// zzAdmNamedPortWorld: one ANP (any action) or the BANP with one rule on the port name http, in either direction, over a
+// world where two pods declare that name with different (symbolic) numbers and two pods do not declare it: the name is
+// resolved on the destination of the connection, whatever the direction of the rule.
+func zzAdmNamedPortWorld() *zzGen {
+	g := zzBaseWorld(true, true)
+	g.addPod("ns1", "d", map[string]string{"app": "d"}, []corev1.ContainerPort{{Name: "http", ContainerPort: zzPortVar("d.http"), Protocol: corev1.ProtocolTCP}})
+	ing := vf_Choose("dir", 2) == 0
+	h := "http"
+	ports := &[]apisv1a.AdminNetworkPolicyPort{{NamedPort: &h}}
+	all := &metav1.LabelSelector{}
+	if vf_Choose("kind", 2) == 0 {
+		anp := zzSimpleANP("anp0", 7).AdminNetworkPolicy
+		act := zzActions[vf_Choose("act", 3)]
+		anp.Spec.Ingress = nil
+		if ing {
+			anp.Spec.Ingress = []apisv1a.AdminNetworkPolicyIngressRule{{Action: act, From: []apisv1a.AdminNetworkPolicyIngressPeer{{Namespaces: all}}, Ports: ports}}
+		} else {
+			anp.Spec.Egress = []apisv1a.AdminNetworkPolicyEgressRule{{Action: act, To: []apisv1a.AdminNetworkPolicyEgressPeer{{Namespaces: all}}, Ports: ports}}
+		}
+		g.addANP(anp)
+	} else {
+		b := &apisv1a.BaselineAdminNetworkPolicy{
+			TypeMeta:   metav1.TypeMeta{Kind: "BaselineAdminNetworkPolicy", APIVersion: "policy.networking.k8s.io/v1alpha1"},
+			ObjectMeta: metav1.ObjectMeta{Name: "default"},
+		}
+		b.Spec.Subject = apisv1a.AdminNetworkPolicySubject{Namespaces: all}
+		act := []apisv1a.BaselineAdminNetworkPolicyRuleAction{apisv1a.BaselineAdminNetworkPolicyRuleActionAllow, apisv1a.BaselineAdminNetworkPolicyRuleActionDeny}[vf_Choose("act", 2)]
+		if ing {
+			b.Spec.Ingress = []apisv1a.BaselineAdminNetworkPolicyIngressRule{{Action: act, From: []apisv1a.AdminNetworkPolicyIngressPeer{{Namespaces: all}}, Ports: ports}}
+		} else {
+			b.Spec.Egress = []apisv1a.BaselineAdminNetworkPolicyEgressRule{{Action: act, To: []apisv1a.AdminNetworkPolicyEgressPeer{{Namespaces: all}}, Ports: ports}}
+		}
+		g.addBANP(b)
+	}
+	return g
+}
+
+// C02: a named port of an admin rule is the destination's port of that name (list side, all ordered pairs)
+func ZZ_C02_NamedPortDirection() {
+	g := zzAdmNamedPortWorld()
+	pe, err := NewPolicyEngineWithObjects(g.Objs)
+	vf_Assert(err == nil, "engine-built")
+	zzCheckAllPairs(g, pe, "list-matches-admin-named-port")
 }
